@@ -66,8 +66,8 @@ Proof.
 Qed.
 
 (* and the checker does see the pinned model's defect: the overwrite witness fails clause 5 *)
-Definition zA : zserver := mkSrv 1 10%Z [].
-Definition zB : zserver := mkSrv 2 20%Z [].
+Definition zA : zserver := mkSrv 1 10%Z [] false.
+Definition zB : zserver := mkSrv 2 20%Z [] false.
 Definition z_ro : zroster := mkRo 7 [zA; zB].
 Definition z_t : ztree := mkTree 9 (Some z_ro) (Node 100 zA 0 (Some 30%Z) [Node 101 zB 1 (Some 20%Z) []]).
 Definition z_b : ztree := mkTree 9 (Some z_ro) (Node 101 zB 1 (Some 30%Z) [Node 100 zA 0 (Some 10%Z) []]).
